@@ -1,12 +1,78 @@
 /-
   UnytModel.Ops.C06 — opcodes of the C06 model (prefix `c06.`).
+    c06.route <func>                         → unsupported | handled | default | unknown
+    c06.run <func> <variant> <sig> p=q|b …   → the kernel call `Np.run` makes on symbolic arguments
+    c06.dispatch <func> <0|1>                → branch of `Np.dispatch` (1 = a foreign type takes part)
+    c06.defects <func> <variant> <sig>       → defects of the regenerated row (comma separated)
+    c06.static <func>                        → static defects of the handler
+    c06.exclusions                           → the literal exclusion list
+    c06.dump.counts                          → sizes of the regenerated tables
 -/
 import UnytModel.DriverBase
+import UnytModel.NpHandlers
+import UnytModel.Generated.Handlers
+import UnytModel.Ref.C06Exclusions
 
 namespace Unyt
+open Unyt.Np
 
-def opsC06 : Handler := fun _st fields =>
+def c06FindRow (f v s : String) : Option Row :=
+  Generated.traceRows.find? fun r => r.func == f && r.variant == v && r.sig == s
+
+/-- symbolic argument `p=q` (carries units) / `p=b` (bare): the value is named by its parameter -/
+def c06ParseArgs (xs : List String) : Option (Args String) :=
+  xs.mapM fun x =>
+    match x.splitOn "=" with
+    | [p, "q"] => some (p, PyVal.qty p "u")
+    | [p, "b"] => some (p, PyVal.bare p)
+    | _ => none
+
+/-- the recording kernel: returns the call it was asked to make -/
+def c06Kernel : Kernel String String := fun g a => renderCall g a
+
+def c06RouteStr (f : String) : String :=
+  if !(Generated.npUniverse.contains f) then "unknown" else
+  match route Generated.npUnsupported Generated.npHandled f with
+  | .unsupported => "unsupported"
+  | .handled => "handled"
+  | .default => "default"
+
+def opsC06 : Handler := fun st fields =>
   match fields with
+  | ["c06.route", f] => some (st, s!"ok\t{c06RouteStr f}")
+  | "c06.run" :: f :: v :: s :: rest =>
+    match c06FindRow f v s, c06ParseArgs (rest.filter (· != "")) with
+    | some row, some args =>
+      let o := run c06Kernel (fun p => PyVal.qty ("?" ++ p) "u") (fun r => "altered:" ++ r) (fun _ => "u") row args
+      match o with
+      | .raised e => some (st, s!"ok\traised\t{e}")
+      | .noKernel => some (st, "ok\tnokernel")
+      | .value _ r =>
+        let via := match row.calls with | (true, _) :: _ => "impl" | _ => "public"
+        some (st, s!"ok\tcall\t{via}\t{r}\t{row.post.str}")
+    | none, _ => some (st, "norow")
+    | _, none => some (st, "bad-args")
+  -- the dispatcher on a symbolic call: which branch of `Np.dispatch` answers
+  | ["c06.dispatch", f, foreign] =>
+    let row : Row := ⟨f, "", "", false, [(true, f)], [("x", Fwd.same)], Post.id⟩
+    let o := dispatch Generated.npUnsupported Generated.npHandled c06Kernel (fun p => PyVal.qty ("?" ++ p) "u")
+      (fun r => r) (fun _ => "handler") (fun _ => row) (foreign == "1") f [("x", PyVal.qty "x" "u")]
+    match o with
+    | .raised e => some (st, s!"ok\traised\t{e}")
+    | .noKernel => some (st, "ok\tnokernel")
+    | .value u r => some (st, s!"ok\t{if u == "handler" then "handler" else "kernel"}\t{r}")
+  | ["c06.defects", f, v, s] =>
+    match c06FindRow f v s with
+    | some row => some (st, s!"ok\t{",".intercalate (defects row)}")
+    | none => some (st, "norow")
+  | ["c06.static", f] =>
+    match Generated.handlerStatics.find? (·.implements == f) with
+    | some h => some (st, s!"ok\t{",".intercalate (staticDefects h)}")
+    | none => some (st, "none")
+  | ["c06.exclusions"] =>
+    some (st, "ok\t" ++ ";".intercalate (Ref.exclC06.map fun (f, d) => f ++ "|" ++ d))
+  | ["c06.dump.counts"] =>
+    some (st, s!"ok\t{Generated.npUniverse.length}\t{Generated.npUnsupported.length}\t{Generated.npHandled.length}\t{Generated.handlerStatics.length}\t{Generated.traceRows.length}")
   | _ => none
 
 end Unyt
